@@ -6,7 +6,7 @@
    success report implies destination = source, C01); that concurrently running tokio tasks do
    not disturb each other through the runtime is exercised on the real daemons by the `daemon`
    correspondence stream (whose oracle is the property itself), not proved. *)
-From CFDP Require Import Base.Prelude Model.Daemon Proofs.DaemonP.
+From CFDP Require Import Base.Prelude Model.Daemon Proofs.DaemonP Proofs.DaemonRunP.
 From CFDP Require Import Model.Timer Model.TxTypes Model.Recv Model.Send Proofs.HeaderP Proofs.RecvHeaderP.
 
 (* identifiers: up to 2^(8w) consecutive Put requests get pairwise distinct transaction ids
@@ -69,6 +69,22 @@ Example C11_nonvacuous :
   d_forward true 1 2 9 false s = (s, DUnable, None).
 Proof. vm_compute. auto. Qed.
 
+(* over histories of the routing core: whatever the daemon handles between two Put requests - PDUs of
+   any kind, strays included, user commands, clean-ups ([dev] = one handler call, [put_ids] = the ids
+   given to the Puts that started a transaction) - the ids of its first 2^(8w) Put requests are
+   pairwise distinct and all carry this daemon's own entity id *)
+Theorem C11_history_put_ids_distinct : forall evs s, d_next s < seq_modulus (d_width s) ->
+  nputs evs <= seq_modulus (d_width s) -> NoDup (put_ids evs s).
+Proof. exact history_put_ids_distinct. Qed.
+Theorem C11_history_put_ids_own : forall evs s id, d_next s < seq_modulus (d_width s) ->
+  In id (put_ids evs s) -> fst id = d_entity s.
+Proof. exact history_put_ids_own. Qed.
+Example C11_history_nonvacuous :
+  let s := d_new 1 1 254 [2] in
+  put_ids [EPut 2 true; EFwd false 2 1 254 false; EPut 2 true; EClean [(1, 254)]; EPut 2 true; ECmd (1, 0) false; EPut 3 true] s
+  = [(1, 254); (1, 255); (1, 0)].
+Proof. vm_compute. reflexivity. Qed.
+
 (* what a transaction puts on the link (Model/Recv.v, Model/Send.v): EVERY PDU a receive
    transaction emits, in any state and after any operation, is directed to the file sender and
    handed to the transport of ITS OWN source entity; every PDU a send transaction emits is
@@ -104,3 +120,5 @@ Print Assumptions C11_cleanup_only_removes.
 Print Assumptions C11_receiver_addresses_only_its_peer.
 Print Assumptions C11_receiver_addresses_initial.
 Print Assumptions C11_sender_addresses_only_its_peer.
+Print Assumptions C11_history_put_ids_distinct.
+Print Assumptions C11_history_put_ids_own.
